@@ -583,7 +583,7 @@ func (it *Interp) rtypeMethod(t types.Type, name string, args []Val) Val {
 var initAllow = map[string]bool{
 	"io": true, "errors": true, "encoding/binary": true, "bytes": true, "strings": true, "sort": true, "math": true,
 	"math/bits": true, "unicode/utf8": true, "strconv": true, "unicode": false, "time": false, "fmt": false,
-	"hash/crc32": false, "hash/adler32": true, "compress/flate": true, "compress/gzip": true, "compress/zlib": true, "bufio": true, "io/fs": true, "slices": true, "maps": true, "cmp": true, "path": true, "context": false,
+	"hash/crc32": true, "hash/adler32": true, "compress/flate": true, "compress/gzip": true, "compress/zlib": true, "bufio": true, "io/fs": true, "slices": true, "maps": true, "cmp": true, "path": true, "context": false,
 }
 
 func (it *Interp) initAllowed(path string) bool {
